@@ -2,6 +2,7 @@ package routing
 
 import (
 	"fmt"
+	"math/bits"
 	"net/netip"
 )
 
@@ -45,10 +46,14 @@ func (g *Gateway) String() string {
 	return fmt.Sprintf("{addr: %s, weight: %d}", g.addr, g.weight)
 }
 
-// Divide and round to nearest integer
-func divideAndRound(v uint64, d uint64) uint64 {
-	var tmp uint64 = v + d/2
-	return tmp / d
+// scaleAndRound returns (w<<31)/d rounded to the nearest integer. The intermediate is 128 bits wide:
+// with weights up to MaxInt32 the sum of a few gateways does not fit in 64 bits once shifted.
+// w must not exceed d.
+func scaleAndRound(w uint64, d uint64) uint64 {
+	hi, lo := bits.Mul64(w, 1<<31)
+	lo, carry := bits.Add64(lo, d/2, 0)
+	q, _ := bits.Div64(hi+carry, lo, d)
+	return q
 }
 
 // Implements Hash-Threshold mapping, equivalent to the implementation in the linux kernel.
@@ -64,7 +69,7 @@ func CalculateBucketsForGateways(gateways []Gateway) {
 	var loopWeight int = 0
 	for i := range gateways {
 		loopWeight += gateways[i].weight
-		gateways[i].bucketUpperBound = int(divideAndRound(uint64(loopWeight)<<31, uint64(totalWeight))) - 1
+		gateways[i].bucketUpperBound = int(scaleAndRound(uint64(loopWeight), uint64(totalWeight))) - 1
 	}
 
 }
